@@ -1,5 +1,6 @@
 (* Fmt/Breaks.v — if no optional break point of a document decides a line-break-sensitive position of the parser
-   (safe_breaks), all renderings of the document show the parser the same line-break flags. *)
+   (safe_breaks), all renderings of the document show the parser the same line-break flags, namely the flags the document
+   forces (doc_flags); if these are the flags of the source, every rendering parses like the source. *)
 From Coq Require Import String Ascii List Bool Arith.
 From Mimium Require Import Fmt.Model Fmt.Render.
 Import ListNotations.
@@ -15,11 +16,11 @@ Definition binv (b : bstate) (lb1 lb2 : bool) : Prop :=
 
 Lemma safe_observed_from : forall l s1 s2,
   Forall2 inst1 l s1 -> Forall2 inst1 l s2 ->
-  forall prev b lb1 lb2,
-    safe_from prev b l = true -> binv b lb1 lb2 ->
-    observed_from prev lb1 s1 = observed_from prev lb2 s2.
+  forall prev b st lb1 lb2,
+    safe_from prev b st l = true -> binv b lb1 lb2 ->
+    observed_from prev lb1 st s1 = observed_from prev lb2 st s2.
 Proof.
-  induction l as [|it l IH]; intros s1 s2 H1 H2 prev b lb1 lb2 Hs Hb.
+  induction l as [|it l IH]; intros s1 s2 H1 H2 prev b st lb1 lb2 Hs Hb.
   - inversion H1; inversion H2; subst. reflexivity.
   - inversion H1 as [|? x1 ? s1' I1 T1]; subst. inversion H2 as [|? x2 ? s2' I2 T2]; subst.
     destruct it as [w| | | ].
@@ -27,11 +28,11 @@ Proof.
       destruct (is_comment w).
       * eapply IH; eauto.
       * apply andb_true_iff in Hs. destruct Hs as [Hok Hs].
-        assert (E : observed_from (Some w) false s1' = observed_from (Some w) false s2')
+        assert (E : observed_from (Some w) false (ctx_step prev w st) s1' = observed_from (Some w) false (ctx_step prev w st) s2')
           by (eapply IH; eauto; reflexivity).
         rewrite E. f_equal.
         destruct prev as [p|]; [|reflexivity].
-        destruct (sensitive p w); [|reflexivity].
+        destruct (sensitive st p w); [|reflexivity].
         destruct b; cbn in Hb; [now subst|discriminate|destruct Hb; now subst].
     + inversion I1; inversion I2; subst. cbn [safe_from observed_from] in *. eapply IH; eauto.
     + cbn [safe_from] in Hs.
@@ -62,4 +63,73 @@ Proof.
   intros A parse d r1 r2 Hs H1 H2.
   rewrite (breaks_safe d r1 r2 Hs H1 H2).
   unfold renderings in *. rewrite (rs_words _ _ _ _ _ H1), (rs_words _ _ _ _ _ H2). reflexivity.
+Qed.
+
+(* ---- the flags every rendering shows are the flags the document forces ------------------------------------------------ *)
+(* relation between the break state of the item scan and the line-break flag of one instance *)
+Definition binv1 (b : bstate) (lb : bool) : Prop :=
+  match b with
+  | BNone => lb = false
+  | BOpt => True
+  | BHard => lb = true
+  end.
+
+Lemma safe_observed_det : forall l s,
+  Forall2 inst1 l s ->
+  forall prev b st lb,
+    safe_from prev b st l = true -> binv1 b lb ->
+    observed_from prev lb st s = det_from prev b st l.
+Proof.
+  induction l as [|it l IH]; intros s H prev b st lb Hs Hb.
+  - inversion H; subst. reflexivity.
+  - inversion H as [|? x ? s' I T]; subst.
+    destruct it as [w| | | ].
+    + inversion I; subst. cbn [safe_from observed_from det_from] in *.
+      destruct (is_comment w).
+      * eapply IH; eauto.
+      * apply andb_true_iff in Hs. destruct Hs as [Hok Hs].
+        rewrite (IH s' T (Some w) BNone (ctx_step prev w st) false Hs eq_refl). f_equal.
+        destruct prev as [p|]; [|reflexivity].
+        destruct (sensitive st p w); [|reflexivity].
+        destruct b; cbn in Hb; [now subst|discriminate|now subst].
+    + inversion I; subst. cbn [safe_from observed_from det_from] in *. eapply IH; eauto.
+    + cbn [safe_from det_from] in *.
+      inversion I; subst; cbn [observed_from]; (eapply IH; [eassumption|exact Hs|]);
+        destruct b; cbn in *; auto.
+    + cbn [safe_from det_from] in *. inversion I; subst. cbn [observed_from].
+      eapply IH; [eassumption|exact Hs|]. reflexivity.
+Qed.
+
+Lemma breaks_forced : forall d r,
+  safe_breaks d = true -> In r (renderings d) -> observed r = doc_flags d.
+Proof.
+  intros d r Hs H. unfold observed, doc_flags.
+  eapply safe_observed_det with (b := BNone).
+  - eapply rs_inst; exact H.
+  - exact Hs.
+  - reflexivity.
+Qed.
+
+Lemma list_bool_eqb_eq : forall a b, list_bool_eqb a b = true -> a = b.
+Proof.
+  induction a as [|x a IH]; intros [|y b] H; cbn in H; try discriminate; [reflexivity|].
+  apply andb_true_iff in H. destruct H as [E H]. apply Bool.eqb_prop in E. subst. f_equal. now apply IH.
+Qed.
+
+Lemma breaks_as_source : forall ind c r,
+  keeps_breaks ind c = true -> In r (renderings (doc_of ind c)) -> observed r = src_observed c.
+Proof.
+  intros ind c r K H. unfold keeps_breaks in K. apply andb_true_iff in K. destruct K as [Hs E].
+  rewrite (breaks_forced _ _ Hs H). now apply list_bool_eqb_eq.
+Qed.
+
+(* every rendering parses like the source, for any parser that is a function of the token/comment sequence and of the
+   line-break flags at the sensitive positions *)
+Lemma same_parse_as_source : forall (A : Type) (parse : list string -> list bool -> A) ind c r,
+  emits_all ind c -> keeps_breaks ind c = true -> In r (renderings (doc_of ind c)) ->
+  parse (words r) (observed r) = parse (cst_words c) (src_observed c).
+Proof.
+  intros A parse ind c r E K H.
+  rewrite (breaks_as_source _ _ _ K H).
+  unfold renderings in H. rewrite (rs_words _ _ _ _ _ H). now rewrite E.
 Qed.
